@@ -74,6 +74,14 @@ def bmc_bv(c):
     return z3.BitVecVal(c, 64) if isinstance(c, int) else c
 
 
+import functools
+from wesym import coop
+
+
+def _coop_inst(preemptions, I):
+    coop.install(I, preemptions=preemptions)
+
+
 def main():
     t = tier()
     chk = Check('C09', c01.PKGS, 'pkg/secretstore',
@@ -82,9 +90,24 @@ def main():
     P = MOD + '/pkg/secretstore.'
     chk.load([P + 'VerifC09Concurrent'])
     cfg = {'timeout_ms': 120000, 'unwind': 12, 'dec_as_term': True, 'chan_pool': 0}
-    grid = [(2, 1, 1), (2, 1, 0)] if t == 'quick' else [(2, 1, 1), (2, 1, 0), (2, 2, 1), (3, 1, 1)]
+    grid = [(2, 1, 1)] if t == 'quick' else [(2, 1, 1), (2, 1, 0), (2, 2, 1), (3, 1, 1)]
     jobs = [Job(P + 'VerifC09Concurrent', a, cfg=cfg, max_paths=100000) for a in grid]
     res = chk.run_jobs(jobs)
+    chk.cleanup()
+    # the same contract under the symbolic scheduler inside the interpreter (coop.py): one shared heap, real datastore semantics
+    chk2 = Check('C09', c01.PKGS, 'pkg/secretstore',
+                 ['secretstore/zz_verif_env.go', 'secretstore/zz_verif_rand.go', 'C09/zz_verif_c09_coop.go'],
+                 installers=[crypto.install, crypto.install_proto, c02.install], init_pkgs=[MOD + '/pkg/errcode'], prelude_pkgname='secretstore')
+    chk2.load([P + 'VerifC09Coop'])
+    cgrid = [(2, 1, 1, 2), (2, 1, 0, 1)] if t == 'quick' else [(2, 1, 1, 3), (2, 1, 0, 2), (2, 2, 1, 2), (3, 1, 1, 2)]
+    kj = []
+    for (sn, per, same, pre) in cgrid:
+        K = 6 if t == 'quick' else 14
+        for i in range(K):
+            kj.append(Job(P + 'VerifC09Coop', (sn, per, same), cfg={'timeout_ms': 60000, 'unwind': 12, 'dec_as_term': True}, installers=[functools.partial(_coop_inst, pre)],
+                          shard=(i, K), max_paths=400000, label='VerifC09Coop(%d,%d,%d)[pre<=%d]#%d/%d' % (sn, per, same, pre, i, K)))
+    res += chk2.run_jobs(kj)
+    chk = chk2
     finish(chk, res, t,
            explanation='Schedule-symbolic bounded model checking (DESIGN section 4) of concurrent SealEnvelope calls on one secret store: the goroutine '
                        'bodies are the real SealEnvelope / getDeviceChainKeyForGroupAndDevice / sealEnvelope / deriveDeviceChainKey / preComputeNextKey / '
@@ -92,7 +115,7 @@ def main():
                        'messageMutex operation is a recorded visible step; a Get returns a free term bound to the shared datastore array at the step it '
                        'executes). For each tuple of sequences one formula with free who_k / stop decides stuck states, the in-thread assertions and '
                        'final-state assertions over the header counters of the returned envelopes.',
-           bounds={'grid(senders, messages each, same group)': grid, 'outside': 'more senders/messages; real parallel hardware effects below sequential consistency; OpenEnvelopePayload concurrently with sends'},
+           bounds={'grid(senders, messages each, same group)': grid, 'coop_grid(senders, messages each, same group, preemption bound)': cgrid, 'outside': 'more senders/messages; real parallel hardware effects below sequential consistency; OpenEnvelopePayload concurrently with sends'},
            assumptions=['sequential consistency', 'datastore operations are atomic steps', 'term algebra for the KDF chain'],
            trusted=['go/ssa lowering', 'wesym interpreter (open mode) + BMC composer + contracts', 'z3 5.1.0'])
 
